@@ -547,12 +547,25 @@ fn target_of(t: u8) -> Target {
     Target::Smooth { mode, symmetric_rendering: t & 1 != 0, preserve_linear_metrics: t & 2 != 0 }
 }
 
-fn engine_of(e: u8, outlines: &OutlineGlyphCollection) -> Engine {
+thread_local! {
+    /// one `GlyphStyles` per font, shared by every instance the current case builds in this thread (the baseline runs in its
+    /// own fresh thread and therefore computes its own)
+    static STYLES: std::cell::RefCell<std::collections::BTreeMap<usize, GlyphStyles>> = const { std::cell::RefCell::new(std::collections::BTreeMap::new()) };
+}
+fn clear_styles() {
+    STYLES.with(|s| s.borrow_mut().clear());
+}
+fn font_key(f: &FontEntry) -> usize {
+    (fnv64(f.name.as_bytes()) | 1) as usize
+}
+/// key != 0: `Engine::Auto(Some(..))` receives the case-wide shared styles of that font (same `Arc` every time)
+fn engine_of(e: u8, outlines: &OutlineGlyphCollection, key: usize) -> Engine {
     match e {
         0 => Engine::Interpreter,
         1 => Engine::Auto(None),
         2 => Engine::AutoFallback,
-        _ => Engine::Auto(Some(GlyphStyles::new(outlines))),
+        _ if key == 0 => Engine::Auto(Some(GlyphStyles::new(outlines))),
+        _ => Engine::Auto(Some(STYLES.with(|s| s.borrow_mut().entry(key).or_insert_with(|| GlyphStyles::new(outlines)).clone()))),
     }
 }
 
@@ -627,7 +640,7 @@ fn obs_loc_strategy() -> BoxedStrategy<Loc> {
 }
 
 fn engine_strategy() -> BoxedStrategy<u8> {
-    prop_oneof![12 => Just(0u8), 4 => Just(2u8), 2 => Just(1u8), 1 => Just(3u8)].boxed()
+    prop_oneof![12 => Just(0u8), 4 => Just(2u8), 2 => Just(1u8), 2 => Just(3u8)].boxed()
 }
 
 fn hinted_strategy() -> BoxedStrategy<Hint> {
@@ -662,6 +675,10 @@ struct Step {
     hint: Hint,
     /// glyphs drawn through the instance after this reconfigure (raw glyph selector, with caller memory?)
     draws: Vec<(u32, bool)>,
+    /// Some(k): this step is the observed font and configuration with exactly one dimension replaced by this step's value
+    /// (k%4: 0 location, 1 size, 2 target, 3 engine)
+    #[serde(default)]
+    tweak: Option<u8>,
 }
 
 fn step_strategy() -> BoxedStrategy<Step> {
@@ -671,8 +688,9 @@ fn step_strategy() -> BoxedStrategy<Step> {
         loc_strategy(),
         hinted_strategy(),
         proptest::collection::vec((any::<u32>(), any::<bool>()), 0..=20),
+        prop_oneof![5 => Just(None), 2 => Just(Some(0u8)), 1 => (1u8..4).prop_map(Some)],
     )
-        .prop_map(|(font, ppem64, loc, hint, draws)| Step { font, ppem64, loc, hint, draws })
+        .prop_map(|(font, ppem64, loc, hint, draws, tweak)| Step { font, ppem64, loc, hint, draws, tweak })
         .boxed()
 }
 
@@ -916,14 +934,13 @@ fn check_metrics_finite(d: &Drawn) -> Result<(), String> {
 
 fn new_instance(f: &FontEntry, outlines: &OutlineGlyphCollection, ppem64: u32, coords: &[F2Dot14], hint: &Hint) -> Result<HintingInstance, String> {
     let Hint::Hinted { engine, target, .. } = hint else { return Err("unhinted".into()) };
-    let _ = f;
-    HintingInstance::new(outlines, size_of(ppem64), LocationRef::new(coords), HintingOptions { engine: engine_of(*engine, outlines), target: target_of(*target) })
+    HintingInstance::new(outlines, size_of(ppem64), LocationRef::new(coords), HintingOptions { engine: engine_of(*engine, outlines, font_key(f)), target: target_of(*target) })
         .map_err(|e| format!("{e:?}"))
 }
 
-fn reconfigure(inst: &mut HintingInstance, outlines: &OutlineGlyphCollection, ppem64: u32, coords: &[F2Dot14], hint: &Hint) -> Result<(), String> {
+fn reconfigure(inst: &mut HintingInstance, key: usize, outlines: &OutlineGlyphCollection, ppem64: u32, coords: &[F2Dot14], hint: &Hint) -> Result<(), String> {
     let Hint::Hinted { engine, target, .. } = hint else { return Err("unhinted".into()) };
-    inst.reconfigure(outlines, size_of(ppem64), LocationRef::new(coords), HintingOptions { engine: engine_of(*engine, outlines), target: target_of(*target) })
+    inst.reconfigure(outlines, size_of(ppem64), LocationRef::new(coords), HintingOptions { engine: engine_of(*engine, outlines, key), target: target_of(*target) })
         .map_err(|e| format!("{e:?}"))
 }
 
@@ -1002,11 +1019,33 @@ fn sel_font(sel: &FontSel, observed: &'static FontEntry) -> &'static FontEntry {
 
 /// Runs the reconfigure/draw history; returns the instance (if any reconfigure ever succeeded in creating one) and the
 /// number of successful (re)configurations.
-fn run_history(history: &[Step], observed: &'static FontEntry, scratch: &mut Scratch, buf: &Buf, stats: &Stats) -> (Option<HintingInstance>, usize, usize) {
+fn run_history(history: &[Step], observed: &'static FontEntry, obs: &Cfg, scratch: &mut Scratch, buf: &Buf, stats: &Stats) -> (Option<HintingInstance>, usize, usize) {
     let mut inst: Option<HintingInstance> = None;
     let mut ok_steps = 0;
     let mut other_format = 0;
-    for st in history {
+    for st0 in history {
+        // one-dimension neighbours of the observed configuration
+        let tweaked;
+        let st = match (st0.tweak, &obs.hint, &st0.hint) {
+            (Some(k), Hint::Hinted { engine: oe, target: ot, pedantic }, Hint::Hinted { engine: se, target: stt, .. }) => {
+                let mut t = Step { font: FontSel::Same, ppem64: obs.ppem64, loc: obs.loc.clone(), hint: Hint::Hinted { engine: *oe, target: *ot, pedantic: *pedantic }, draws: st0.draws.clone(), tweak: st0.tweak };
+                match k % 4 {
+                    0 => t.loc = st0.loc.clone(),
+                    1 => t.ppem64 = st0.ppem64,
+                    2 => t.hint = Hint::Hinted { engine: *oe, target: *stt, pedantic: *pedantic },
+                    _ => t.hint = Hint::Hinted { engine: *se, target: *ot, pedantic: *pedantic },
+                }
+                stats.class(match k % 4 {
+                    0 => "history-step=observed-K-other-location",
+                    1 => "history-step=observed-K-other-size",
+                    2 => "history-step=observed-K-other-target",
+                    _ => "history-step=observed-K-other-engine",
+                });
+                tweaked = t;
+                &tweaked
+            }
+            _ => st0,
+        };
         let sf = sel_font(&st.font, observed);
         let so = sf.font.outline_glyphs();
         let coords = coords_of(sf.axes, &st.loc);
@@ -1018,7 +1057,7 @@ fn run_history(history: &[Step], observed: &'static FontEntry, scratch: &mut Scr
                 }
                 Err(e) => Err(e),
             },
-            Some(i) => reconfigure(i, &so, st.ppem64, &coords, &st.hint),
+            Some(i) => reconfigure(i, font_key(sf), &so, st.ppem64, &coords, &st.hint),
         };
         if r.is_err() {
             stats.class("history-step-reconfigure-err");
@@ -1097,6 +1136,7 @@ fn check_wf(f: &FontEntry, g: GlyphId, cfg: &Cfg, d: &Drawn, stats: &Stats) -> C
 }
 
 fn test_history(c: &Case, stats: &Stats) -> CaseResult {
+    clear_styles();
     let f = pick_font(c.font);
     let outlines = f.font.outline_glyphs();
     let gids: Vec<GlyphId> = c.gids.iter().map(|r| pick_gid(f, *r)).collect();
@@ -1118,7 +1158,7 @@ fn test_history(c: &Case, stats: &Stats) -> CaseResult {
     let var_loc = if zero_variant { Loc::Zeros(c.zero_len.unwrap()) } else { c.cfg.loc.clone() };
     let coords = coords_of(f.axes, &var_loc);
     let mut scratch = Scratch::default();
-    let (inst, ok_steps, other_format) = run_history(&c.history, f, &mut scratch, &buf, stats);
+    let (inst, ok_steps, other_format) = run_history(&c.history, f, &c.cfg, &mut scratch, &buf, stats);
 
     let hinted = matches!(c.cfg.hint, Hint::Hinted { .. });
     let mut used: Option<HintingInstance> = inst;
@@ -1131,7 +1171,7 @@ fn test_history(c: &Case, stats: &Stats) -> CaseResult {
                 }
                 Err(e) => Err(e),
             },
-            Some(i) => reconfigure(i, &outlines, c.cfg.ppem64, &coords, &c.cfg.hint),
+            Some(i) => reconfigure(i, font_key(f), &outlines, c.cfg.ppem64, &coords, &c.cfg.hint),
         };
         if r != base.inst {
             return Err(fail(
@@ -1289,6 +1329,7 @@ fn tcase_strategy() -> impl Strategy<Value = TCase> {
 }
 
 fn test_threads(c: &TCase, stats: &Stats) -> CaseResult {
+    clear_styles();
     let f = pick_font(c.font);
     let outlines = f.font.outline_glyphs();
     let gids: Vec<GlyphId> = c.gids.iter().map(|r| pick_gid(f, *r)).collect();
@@ -1301,7 +1342,7 @@ fn test_threads(c: &TCase, stats: &Stats) -> CaseResult {
     let var_loc = if zero_variant { Loc::Zeros(c.zero_len.unwrap()) } else { c.cfg.loc.clone() };
     let coords = coords_of(f.axes, &var_loc);
     let mut scratch = Scratch::default();
-    let (inst, ok_steps, _) = run_history(&c.history, f, &mut scratch, &c.buf, stats);
+    let (inst, ok_steps, _) = run_history(&c.history, f, &c.cfg, &mut scratch, &c.buf, stats);
     let hinted = matches!(c.cfg.hint, Hint::Hinted { .. });
     let mut used = inst;
     if hinted {
@@ -1313,7 +1354,7 @@ fn test_threads(c: &TCase, stats: &Stats) -> CaseResult {
                 }
                 Err(e) => Err(e),
             },
-            Some(i) => reconfigure(i, &outlines, c.cfg.ppem64, &coords, &c.cfg.hint),
+            Some(i) => reconfigure(i, font_key(f), &outlines, c.cfg.ppem64, &coords, &c.cfg.hint),
         };
         if r != base.inst {
             return Err(fail("reconfigure-result", format!("font {} cfg {:?}: fresh new -> {:?}, reconfigure after {} configurations -> {:?}", f.name, c.cfg, base.inst, ok_steps, r)));
@@ -1574,7 +1615,7 @@ fn test_syn(c: &SynCase, stats: &Stats) -> CaseResult {
     if let Some(gl) = oa.get(GlyphId::new(c.between as u32)) {
         let _ = draw_one(&gl, &How::Hinted { inst: &inst, pedantic: false }, None);
     }
-    reconfigure(&mut inst, &ob, cfg.ppem64, &[], &hint).map_err(|e| fail("reconfigure-result", format!("fresh ok, reconfigure failed: {e}")))?;
+    reconfigure(&mut inst, font_key(fb), &ob, cfg.ppem64, &[], &hint).map_err(|e| fail("reconfigure-result", format!("fresh ok, reconfigure failed: {e}")))?;
     let gl = ob.get(g).unwrap();
     let how = How::Hinted { inst: &inst, pedantic: false };
     // writer glyph first, then the observed one
@@ -2059,7 +2100,7 @@ fn gencase_strategy() -> impl Strategy<Value = GenCase> {
 
 fn mk_instance(outlines: &OutlineGlyphCollection, ppem64: u32, coords: &[F2Dot14], hint: &Hint) -> Result<HintingInstance, String> {
     let Hint::Hinted { engine, target, .. } = hint else { return Err("unhinted".into()) };
-    HintingInstance::new(outlines, size_of(ppem64), LocationRef::new(coords), HintingOptions { engine: engine_of(*engine, outlines), target: target_of(*target) })
+    HintingInstance::new(outlines, size_of(ppem64), LocationRef::new(coords), HintingOptions { engine: engine_of(*engine, outlines, 0), target: target_of(*target) })
         .map_err(|e| format!("{e:?}"))
 }
 
@@ -2136,7 +2177,7 @@ fn test_gen(c: &GenCase, stats: &Stats) -> CaseResult {
                 let _ = draw_mem(&gl, &How::Hinted { inst: &inst, pedantic: false }, &mut scratch, &c.buf);
             }
         }
-        let r = reconfigure(&mut inst, &ob, c.ppem_b, &[], &hint_b);
+        let r = reconfigure(&mut inst, 0, &ob, c.ppem_b, &[], &hint_b);
         if r != base_inst {
             return Err(fail("reconfigure-result", format!("generated font B: fresh new -> {:?}, reconfigure after font A -> {:?}", base_inst, r)));
         }
@@ -2465,7 +2506,7 @@ fn test_gvar(c: &VCase, stats: &Stats) -> CaseResult {
             Err(_) => None,
         };
         let r = match i.as_mut() {
-            Some(i) => reconfigure(i, &o, c.ppem64, &coords, &c.hint),
+            Some(i) => reconfigure(i, 0, &o, c.ppem64, &coords, &c.hint),
             None => mk_instance(&o, c.ppem64, &coords, &c.hint).map(|x| i = Some(x)),
         };
         if r != base_inst {
